@@ -111,9 +111,9 @@ def parse_w_case(toks):
     while i < len(toks):
         idx = int(toks[i])
         kind = toks[i + 1]
-        if kind == "V":
+        if kind in ("V", "U"):
             tree, j = B.parse_result_tree(toks, i + 2)
-            out.append((idx, ("V", False, B.normalize(tree))))
+            out.append((idx, ("V", kind == "U", B.normalize(tree))))
             i = j
         else:
             out.append((idx, (kind, unhx(toks[i + 2]))))
@@ -208,6 +208,55 @@ def alias_nodes(root, key):
 
     walk(root, b"", 0)
     return out
+
+
+def ints_in_range(t):
+    if isinstance(t, int):
+        return B.INT64_MIN <= t <= B.INT64_MAX
+    if isinstance(t, list):
+        return all(ints_in_range(x) for x in t)
+    if isinstance(t, tuple):
+        return all(ints_in_range(v) for _, v in t[1])
+    return True
+
+
+def canonical_dict(s):
+    """s is exactly the canonical encoding of a dictionary (sorted unique keys, minimal integers)"""
+    try:
+        t, q = B.ref_decode(s)
+        return q == len(s) and isinstance(t, tuple) and ints_in_range(t) and B.ref_encode(t) == s
+    except (B.NoParse, RecursionError):
+        return False
+
+
+def check_projection(tbl, data, consumed, ents, pre=None):
+    """Completeness: on a CANONICAL dictionary and a well-formed sorted table (table_plain) the static-map
+    result must be the projection of the tree the input denotes onto the key table; rows without a
+    (well-typed) value keep what the map held before (pre, default empty)."""
+    s = data[:consumed]
+    if not table_plain(tbl) or B_depth(s) > 100 or not canonical_dict(s):
+        return []
+    try:
+        root = G.span_parse(s)
+        want = G.projection(tbl, s, root)
+    except (B.NoParse, RecursionError):
+        return []
+    if pre is not None:
+        want = [w if w is not None else pre.get(i) for i, w in enumerate(want)]
+    bad = []
+    for i, (w, g) in enumerate(zip(want, ents)):
+        if w != g:
+            bad.append(("static-map-projection",
+                        "entry %d is not the projection of the decoded tree onto the key table (expected %s, got %s)"
+                        % (i, short_sv(w), short_sv(g))))
+            break
+    return bad
+
+
+def short_sv(sv):
+    if sv is None:
+        return "empty"
+    return (sv[0] + " " + repr(sv[1:]))[:60]
 
 
 def B_depth(s):
@@ -333,8 +382,22 @@ def oracle(case, line):
         data = unhx(toks[2])
         rd = parse_read(line)
         if rd is None:
+            if table_plain(tbl) and canonical_dict(data) and B_depth(data) < 100:
+                return [("static-map-projection", "static-map reader rejects a canonical dictionary")]
             return []
-        return check_entries(tbl, data, rd[0], rd[1])
+        return check_entries(tbl, data, rd[0], rd[1]) + check_projection(tbl, data, rd[0], rd[1])
+    if kind == "RI":
+        if line.startswith("ERR:internal"):
+            return [("crash", "static_map_read_bencode_c raised internal_error")]
+        k = int(toks[2])
+        data = unhx(toks[-1])
+        pre = {i: sv for i, sv in parse_w_case(toks[3:-1]) if i < len(tbl)}
+        rd = parse_read(line)
+        if rd is None:
+            return []
+        # soundness on the entries that changed; completeness / destination independence on canonical input
+        changed = [g if g != pre.get(i) else None for i, g in enumerate(rd[1])]
+        return check_entries(tbl, data, rd[0], changed) + check_projection(tbl, data, rd[0], rd[1], pre)
     if kind == "W":
         given = dict(parse_w_case(toks[3:]))
         given = {i: sv for i, sv in given.items() if i < len(tbl)}
@@ -396,6 +459,7 @@ def run_part(rep, tier, seed, replay_case=None):
     nontrivial = set()
     mism = 0
     samples = []
+    deferred = []
     for i, case in enumerate(cases):
         m = mo[i] if i < len(mo) else "MISSING"
         o = io[i] if i < len(io) else "MISSING"
@@ -415,12 +479,15 @@ def run_part(rep, tier, seed, replay_case=None):
                 shown = rep.violation("static-map: model and implementation differ AND the property fails on the implementation: " + text,
                                       case=case, model=m, impl=o, theorem="correspondence C07 static map (read/write outputs)", klass=kl)
             if not shown:
-                # no oracle verdict, or only one of a recorded class: the disagreement itself must still be reported
-                rep.violation("static-map correspondence broken: model and implementation differ on this input (property oracle holds on it, or fails only in a recorded class)",
-                              case=case, model=m, impl=o, theorem="correspondence C07 static map (read/write outputs)", found_input=False)
+                # no oracle verdict, or only one of a recorded class: the disagreement itself must still be
+                # reported — after the concrete failing inputs (the report keeps a bounded number of replays)
+                deferred.append((case, m, o))
         else:
             for kl, text in viol:
                 rep.violation("static-map: " + text, case=case, model=m, impl=o, theorem="property oracle C07 static map", klass=kl)
+    for case, m, o in deferred:
+        rep.violation("static-map correspondence broken: model and implementation differ on this input (property oracle holds on it, or fails only in a recorded class)",
+                      case=case, model=m, impl=o, theorem="correspondence C07 static map (read/write outputs)", found_input=False)
     if not coq["ok"]:
         rep.violation("C07 static-map proof obligations no longer check (%d/%d): %s %s" % (
             coq["discharged"], coq["obligations"], "; ".join(coq["lint"] + coq["bad_axioms"]), coq["log"][-1500:]),
@@ -428,7 +495,8 @@ def run_part(rep, tier, seed, replay_case=None):
     return dict(coq=coq, evaluations=len(cases), distinct_nontrivial=len(nontrivial), mismatches=mism, samples=samples,
                 input_distribution=stats,
                 rule="static-map cases = table dumps (T) + hand list + valid / unsorted / duplicate / unknown-key / wrong-type / "
-                     "embedded-NUL messages for the 4 real and 3 synthetic tables + every prefix + mutations + key lengths 11..18 + "
+                     "embedded-NUL messages for the 4 real and 4 synthetic tables + every outer key after every nested dictionary + "
+                     "reads into maps holding stale values (RI) + every prefix + mutations + key lengths 11..18 + "
                      "deep nesting + random tables + writer round trips (W) + exhaustive small bodies; non-trivial = distinct case "
                      "on which the implementation stores at least one entry")
 
